@@ -1,11 +1,16 @@
 package xml
 
 import (
+	"github.com/clbanning/mxj/v2"
 	"github.com/lmorg/murex/lang"
 	"github.com/lmorg/murex/lang/stdio"
 )
 
 func init() {
+	// write & < > " ' in values as entities: without this mxj writes them raw
+	// and the document is not well formed
+	mxj.XMLEscapeChars(true)
+
 	// Register data type
 	lang.RegisterDataType(typeName, lang.DataTypeIsMarkup)
 	lang.RegisterMarshaller(typeName, marshal)
